@@ -187,14 +187,14 @@ PARSE_NOTE = ("Trusted: Lean kernel + propext/Classical.choice/Quot.sound; cobra
               "Modelled: internal/pflagfork LookupArg / Consumes, the offer rules of actionFlags and IsMutuallyExclusive. traverse itself is not modelled.")
 
 PROPS.update({
-    "C01": {"modules": ["Carapace.Props.C01", "Carapace.Props.C01Slots", "Carapace.Props.C01Flag", "Carapace.Props.C01Attached", "Carapace.Props.C01NonInter", "Carapace.Props.C01Descent", "Carapace.Props.C01Fork", "Carapace.Props.C01ForkTraverse", "Carapace.Props.C01NonPosix", "Carapace.Props.C01ShortAttached"], "ops": [("parse", {"quick": 5000, "thorough": 250000}), ("lookuparg", {"quick": 4000, "thorough": 200000}), ("pflagparse", {"quick": 4000, "thorough": 200000})],
+    "C01": {"modules": ["Carapace.Props.C01", "Carapace.Props.C01Slots", "Carapace.Props.C01Flag", "Carapace.Props.C01Attached", "Carapace.Props.C01NonInter", "Carapace.Props.C01Descent", "Carapace.Props.C01Fork", "Carapace.Props.C01ForkTraverse", "Carapace.Props.C01NonPosix", "Carapace.Props.C01ShortAttached", "Carapace.Props.C01Cobra"], "ops": [("cobrafind", {"quick": 4000, "thorough": 200000}), ("parse", {"quick": 5000, "thorough": 250000}), ("lookuparg", {"quick": 4000, "thorough": 200000}), ("pflagparse", {"quick": 4000, "thorough": 200000})],
             "rule": PARSE_RULE, "assumptions": PARSE_ASSUME, "claimed": True, "engine": "parse",
             "level_text": ("Partial proof + exact correspondence + decision on the real code. "
                            "Models: `traverseSlot` (Model/Traverse.lean: the classification loop of traverse.go over the earlier words, the fix-up of the words handed to the parser, descent into sub-commands, the final case distinction) and `Pflag.parse` (Spec/Pflag.lean: the program's own parser - parseArgs / parseLongArg / parseShortArg of carapace-pflag, POSIX mode). "
                            "Proved: stage 1 - `C01_short_agrees` (for every POSIX flag set in which no flag uses `=` as its shorthand and every shorthand chain the parser does not reject, carapace's LookupArg + Consumes expects the next word to be the value of flag f exactly when the parser takes it as f's value; the hypothesis was forced by the proof and has a decided counterexample), `C01_long_attached`; "
                            "stages 2-3 for any command of any program as long as no earlier word names one of its sub-commands (hypotheses `Stay`, `NoChild`; a single-command program is the special case `Single.stay`) - `C01_positional_lands` (if the model completes positional argument k for a word not starting with `-`, then any word typed there that does not look like a flag is accepted by the parser, given that it accepts the line so far, and becomes exactly positional argument k) `C01_dash_lands` (likewise for argument k after `--`, for any word; hypothesis: no flag is waiting for its value) and, for interspersed commands, `C01_flag_value_lands` (if the model completes the value of flag f, any word of f's type typed there is accepted and is assigned to f as the last assignment of the line: `long_pending`, `short_pending`, the loop invariant `loop_pend` - a flag that waits for its value is the last word - and `parseArgs_append_inter`), resting on `parseArgs_snoc` (the parser's result on `ws ++ [w]` from its result on `ws`, by induction over the line) and `loop_single`. Not proved: non-interspersed commands for the flag-value slot, attached values (`--flag=<TAB>`), and lines that descend into a sub-command (the listed descent findings live there; the dispatch itself is cobra's `Find`, which is executed, not modelled). "
                            "The fork's features: general models `traverseSlotG` / `lookupArgG` / `consumesG` (Model/TraverseG.lean, ForkG.lean) and the parser specification `PflagG.parseG` with per-flag `OptargDelimiter`, `Nargs`, tolerated unknown flags and the non-POSIX mode (`isPosixG`, `lookupNonPosixG`, `parseNonPosixShortG`: the whole word after `-` is one shorthand, ShorthandOnly / NameAsShorthand flags) - compared with the real code on every generated case; about the non-POSIX branch `C01_nonposix_attached` (C01NonPosix.lean: `-word<d>value` is resolved by carapace to the flag whose shorthand is `word` with prefix `-word<d>` and argument `value`, and the parser assigns `value` to the same flag; the text behind the dash must be longer than two characters, which is the parser's own condition - `nonposix_short_empty_attached_counterexample` decides the excluded case, a listed finding); proved `C01_fork_long_attached` (`--name<d>value`, names free of delimiters: carapace resolves the word to that flag with prefix `--name<d>` and argument `value`, the parser assigns `value` to the same flag and takes no further word), `loopG_any_run` + `consumesG_any_stops` + `takeNargs_any` (`Nargs` < 0: carapace's loop and the parser's parseNargs give the flag the same run of words - true only since fix 8fe9b47), `consumesG_n` + `takeNargs_n` (`Nargs` = n), and the embedding theorems `lookupArgG_posix`, `consumesG_posix`, `parseG_posix` and **`traverseSlotG_posix`** (C01ForkTraverse.lean: on every tree without fork features - and without a flag whose shorthand is `=` - the general traverse model picks exactly the slot of the POSIX model, by a simulation between the two classification loops; so every slot theorem above is a theorem about the model that is compared with the code on every case); the driver still evaluates both models and both specifications on every case without fork features and reports a disagreement as a mismatch. "
-                           "`C01_attached_long_lands` (C01Attached.lean): if the model completes a value attached to a long flag (`--name=<TAB>`), the prefix it serves is `--name=` and for any text `v` of the flag's type the word `--name=v` is accepted and assigns `v` to that flag as the last assignment of the line. `C01_attached_short_lands` (C01ShortAttached.lean): the same for a value attached to a shorthand letter, in all three forms `-abn=<TAB>`, `-abnva<TAB>`, `-abn<TAB>`: if the model serves flag `name` behind the prefix `pre` and the parser accepts the earlier words, then for every non-empty `v` of the flag's type the word `pre ++ v` is accepted, the letters before get their defaults and `v` is assigned to that very flag as the last assignment of the line; hypotheses forced by the proof: no flag uses `=` as its shorthand, and in the forms without `=` the candidate does not start with `=` (decided counterexample `short_attached_eq_counterexample`: `-n` + `=x` is read as `-n=x`); word-level core `C01_short_attached_word` / `short_attached` (induction over the chain of letters, against `Pflag.parseShort`). `C01_flag_value_lands_noninterspersed` (C01NonInter.lean): the flag-value slot of a command that stops parsing flags at the first positional, given that the parser has met no positional in front of the flag word (`parseArgs_append_nopos`). `traverseSlot_descend` / `traverseSlot_path` (C01Descent.lean): the slot of `sub1 sub2 ... words` is the slot of `words` in the command the path of sub-command names leads to, so the slot theorems apply behind such a path (`C01_positional_lands_after_path`); that cobra dispatches the same path is decided on the real code. "
+                           "`C01_attached_long_lands` (C01Attached.lean): if the model completes a value attached to a long flag (`--name=<TAB>`), the prefix it serves is `--name=` and for any text `v` of the flag's type the word `--name=v` is accepted and assigns `v` to that flag as the last assignment of the line. `C01_attached_short_lands` (C01ShortAttached.lean): the same for a value attached to a shorthand letter, in all three forms `-abn=<TAB>`, `-abnva<TAB>`, `-abn<TAB>`: if the model serves flag `name` behind the prefix `pre` and the parser accepts the earlier words, then for every non-empty `v` of the flag's type the word `pre ++ v` is accepted, the letters before get their defaults and `v` is assigned to that very flag as the last assignment of the line; hypotheses forced by the proof: no flag uses `=` as its shorthand, and in the forms without `=` the candidate does not start with `=` (decided counterexample `short_attached_eq_counterexample`: `-n` + `=x` is read as `-n=x`); word-level core `C01_short_attached_word` / `short_attached` (induction over the chain of letters, against `Pflag.parseShort`). `C01_flag_value_lands_noninterspersed` (C01NonInter.lean): the flag-value slot of a command that stops parsing flags at the first positional, given that the parser has met no positional in front of the flag word (`parseArgs_append_nopos`). `C01_path_same_command` (C01Cobra.lean): cobra's own `Find` is specified in Lean (Spec/Cobra.lean: `stripFlags`, `argsMinusFirstX`, `findNext`, `innerfind`; tied to the real package by op `cobrafind`: `root.Find(words)` on every generated tree and line) and for a line that begins with a path of sub-command names cobra dispatches to the command the path leads to with the remaining words (`find_descend`, `find_path`, `find_stays`) - the command and the words for which the traverse model computes the slot (`traverseSlot_path`). `traverseSlot_descend` / `traverseSlot_path` (C01Descent.lean): the slot of `sub1 sub2 ... words` is the slot of `words` in the command the path of sub-command names leads to, so the slot theorems apply behind such a path (`C01_positional_lands_after_path`); that cobra dispatches the same path is now a theorem over the specification of `Find` (above). "
                            "Ties: `Pflag.parse` = the real parser on every generated line (op `pflagparse`); `traverseSlot` = the slot the real traverse serves, observed through per-slot marker values, on every generated line incl. sub-command descent, parse errors, DisableFlagParsing, non-interspersed commands (op `parse`); LookupArg / Consumes model = internal/pflagfork (op `lookuparg`). "
                            "Decided on the real code, both directions: every offered candidate carries a marker of the slot that produced it; it is appended to the line and the line is executed by the program's own cobra/pflag on a fresh tree: it must land in that slot (command, positional index, index after the dash, flag); and a probe word typed at the cursor is run through the program the same way: the slot it lands in must be the slot whose registered completion is served (this direction needs no model)."),
             "level_note": PARSE_NOTE},
